@@ -42,6 +42,10 @@ func drawH(t *rapid.T) float64 {
 		return rapid.SampledFrom([]float64{100, 99.99, 99.999, 0.01, 1, 50}).Draw(t, "hc")
 	case 2:
 		return math.Max(1e-3, rapid.Float64Range(0, 1).Draw(t, "hlo"))
+	case 3:
+		// the dry end on a log scale: the domain is (0, 100] %, and a floor or substitution for "no humidity"
+		// sits somewhere down there
+		return math.Exp(rapid.Float64Range(math.Log(1e-12), math.Log(1)).Draw(t, "hlog"))
 	}
 	return math.Max(1e-3, rapid.Float64Range(0, 100).Draw(t, "h"))
 }
